@@ -219,11 +219,18 @@ struct Dim {
     const double seps0 = 1e-12 * std::max(smax(s), 1e-300);
     // eigen-based criteria: the default eigen-solver returns a double eigenvalue with ~1e-8 relative accuracy, so the
     // coalescence threshold must be above that for the eps branches of the second derivatives to be taken
-    const double seps = (crit == "hosford" || crit == "hosford_int" || crit == "barlat") ? 1e-7 * std::max(smax(s), 1e-300) : seps0;
+    const double seps = (crit == "hosford" || crit == "hosford_int" || crit == "hosford_j" || crit == "barlat" || crit == "barlat_j") ? 1e-7 * std::max(smax(s), 1e-300) : seps0;
     Crit c;
-    if (crit == "hosford" || crit == "hosford_int") {
+    if (crit == "hosford" || crit == "hosford_int" || crit == "hosford_j") {
       const double a = p[0];
-      if (crit == "hosford_int") {
+      if (crit == "hosford_j") {
+        // explicit eigen-solver argument (Jacobi): on a diagonal tensor the eigenvalues come back in storage order,
+        // which selects the coalescence branch (0,1), (0,2) or (1,2) of the second derivative
+        constexpr auto J = stensor_common::FSESJACOBIEIGENSOLVER;
+        c.value = [=](const S& x) { return computeHosfordStress<S, double, J>(x, a, seps); };
+        c.normal = [=](const S& x) { return computeHosfordStressNormal<S, double, J>(x, a, seps); };
+        c.second = [=](const S& x) { return computeHosfordStressSecondDerivative<S, double, J>(x, a, seps); };
+      } else if (crit == "hosford_int") {
         const int ai = int(a);
         c.value = [=](const S& x) { return computeHosfordStress(x, ai, seps); };
         c.normal = [=](const S& x) { return computeHosfordStressNormal(x, ai, seps); };
@@ -238,19 +245,27 @@ struct Dim {
       const double vm = sigmaeq(s);
       os << " ho2=" << std::abs(computeHosfordStress(s, 2, seps) - vm) / std::max(vm, 1e-300);
       // which coalescence branch of the second derivative was taken (as the code tests it)
-      const auto vpm = s.computeEigenVectors();
+      const auto vpm = (crit == "hosford_j") ? s.template computeEigenVectors<stensor_common::FSESJACOBIEIGENSOLVER>()
+                                             : s.computeEigenVectors();
       const auto& vp = std::get<0>(vpm);
       const int br = (std::abs(vp[0] - vp[1]) < seps ? 1 : 0) + (std::abs(vp[0] - vp[2]) < seps ? 2 : 0) +
                      (std::abs(vp[1] - vp[2]) < seps ? 4 : 0);
       os << " branch=" << br;
-    } else if (crit == "barlat") {
+    } else if (crit == "barlat" || crit == "barlat_j") {
       // p: c12 c21 c13 c31 c23 c32 c44 c55 c66 (first) then the same for the second transformation, then a
       const auto l1 = makeBarlatLinearTransformation<N, double>(p[0], p[1], p[2], p[3], p[4], p[5], p[6], p[7], p[8]);
       const auto l2 = makeBarlatLinearTransformation<N, double>(p[9], p[10], p[11], p[12], p[13], p[14], p[15], p[16], p[17]);
       const double a = p[18];
-      c.value = [=](const S& x) { return computeBarlatStress(x, l1, l2, a, seps); };
-      c.normal = [=](const S& x) { return computeBarlatStressNormal(x, l1, l2, a, seps); };
-      c.second = [=](const S& x) { return computeBarlatStressSecondDerivative(x, l1, l2, a, seps); };
+      if (crit == "barlat_j") {
+        constexpr auto J = stensor_common::FSESJACOBIEIGENSOLVER;
+        c.value = [=](const S& x) { return computeBarlatStress<S, double, J>(x, l1, l2, a, seps); };
+        c.normal = [=](const S& x) { return computeBarlatStressNormal<S, double, J>(x, l1, l2, a, seps); };
+        c.second = [=](const S& x) { return computeBarlatStressSecondDerivative<S, double, J>(x, l1, l2, a, seps); };
+      } else {
+        c.value = [=](const S& x) { return computeBarlatStress(x, l1, l2, a, seps); };
+        c.normal = [=](const S& x) { return computeBarlatStressNormal(x, l1, l2, a, seps); };
+        c.second = [=](const S& x) { return computeBarlatStressSecondDerivative(x, l1, l2, a, seps); };
+      }
       generic(os, c, s);
       bool ones = true;
       for (int i = 0; i != 18; ++i) ones = ones && (p[i] == 1.);
